@@ -20,8 +20,10 @@ var c10HasValue = [][2]string{
 	{`$count([nothing])`, `0`}, {`nothing in [1]`, `false`}, {`$sum([])`, `0`}, {`$count([])`, `0`}, {`$join([])`, `""`}, {`$merge([])`, `{}`}, {`$string([])`, `"[]"`},
 	{`$boolean([])`, `false`}, {`$map([1], function($v){nothing}) ~> $count`, `0`}, {`function($x){$count($x)}(nothing)`, `0`}, {`function($x, $y){$y}(nothing, 3)`, `3`},
 	{`$.(1)`, ``}, {`$.{"a":1}`, ``}, {`$.[1]`, ``}, {`$[true].(1)`, ``}, {`$.$count($)`, ``}, {`$`, ``}, {`$$`, ``}, {`$$.(1)`, ``}, {`$.a`, ``}, {`$[0]`, ``}, {`$^($).(1)`, ``}, {`*.(1)`, ``}, {`**.(1)`, ``},
+	{`function($x)<x+>{$x[0]}(nothing)`, ``}, {`function($x)<n+>{$x[0]}(nothing)`, ``}, {`(nothing ~> function($x)<x+>{$x})[0]`, ``},
 	{`$length().x`, ``}, {`$string().$length()`, ``}, {`$type().$`, ``}, {`$spread()[]`, ``}, {`$uppercase().$`, ``}, {`$number().($ + 1)`, ``}, {`$keys().$`, ``},
 	{`nothing{"k": $.(1)}.k`, ``}, {`$.($x := 1; $x)`, ``}, {`($.(1))`, ``}, {`$.(1) ~> $string()`, ``}, {`$.$string()`, ``},
+	{`function($a)<n+>{$a}(1, nothing)`, `[1]`}, {`function($x)<x+>{$count($x)}(nothing)`, `0`}, {`$exists(function($x)<x+>{$x[0]}(nothing))`, `false`},
 	{`nothing{"k": $type().$}`, `{}`}, {`$exists(nothing{"k": $string().$length()}.k)`, `false`}, {`nothing{"k": $spread()[]}`, `{}`},
 	{`$map([1,2], function($v){nothing ~> $count})`, `[0,0]`}, {`(nothing; 1)`, `1`}, {`($x := nothing; $exists($x))`, `false`}, {`$reduce([1,2], function($a,$b){$a + $b}, nothing)`, `3`},
 }
